@@ -26,7 +26,7 @@ def corr_cases(strength):
         ("fan4", "P1", {}, "lap_hyp", None),
         # non-trivial local multipliers (boundary dofs dropped) together with non-adjacent pairs
         ("screen22", "P1", {}, "helm_hyp", 1.0 + 0.5j),
-        ("tet", "P1", {"swapped_normals": [1]}, "modhelm_hyp", 0.75),
+        ("islands3", "P1", {"include_boundary_dofs": True, "swapped_normals": [1]}, "modhelm_hyp", 0.75),
         ("islands3", "P1seg", {"segments": [1], "include_boundary_dofs": True}, "helm_hyp", 2.0),
         ("islands3", "RWG", {"include_boundary_dofs": True}, "efield", 1.25 + 0.25j),
         ("tet", "RWG", {}, "efield", 0.5),
